@@ -242,6 +242,10 @@ Inductive op :=
                                            from; the client goes on with the DWARFInfo it already holds *)
 | DIEAtOutside (u o : Z)                (* get_CU_at(u).get_DIE_from_refaddr(o) for an offset o outside the entries of
                                            the unit (inside its header, or at / past its end) *)
+| LineEntriesFailing (u : Z) (e : err) (c : Z)
+                                        (* line_program_for_CU(get_CU_at(u)).get_entries() on a line program whose
+                                           decoding fails part-way on a freshly opened object: e raised, .debug_line
+                                           cursor left at c (which programs fail is a matter of the bytes) *)
 | CUAtFailing (off : Z) (e : err) (c : Z). (* dwarfinfo.get_CU_at(off) at an offset where NO unit starts and where a
                                            freshly opened object raises e, leaving the .debug_info cursor at c
                                            (c < 0: the stream is not touched).  Which offsets fail, and how, is a
